@@ -20,7 +20,7 @@ def run(fams, label):
         cases = f.gen(random.Random(0), "quick")
         vs = f.evaluate(cases)
         for c, v in zip(cases, vs):
-            if v.status != "ok":
+            if v.status != "ok" and "known-alias" not in (v.tags or []):
                 key = (c.get("cls"), c.get("method"), v.status)
                 found.setdefault(key, []).append(v.text if hasattr(v, "text") else str(v)[:100])
     print(label, {k: len(v) for k, v in found.items()})
@@ -158,8 +158,254 @@ def m12():
     ttb.tenmat.__add__ = f
     return lambda: setattr(ttb.tenmat, "__add__", orig)
 
+# ---- parameter corner cases: a branch that has nothing to compute hands on the operand (or a view of it) ----
+def patch(owner, name, fams, label=None):
+    """Decorator: replace owner.name by wrapper(orig) for the duration of the mutant."""
+    def deco(mk):
+        def install():
+            orig = getattr(owner, name)
+            setattr(owner, name, mk(orig))
+            return lambda: setattr(owner, name, orig)
+        muts.append((label or f"{getattr(owner, '__name__', owner)}.{name}: {mk.__doc__}", fams, install))
+        return mk
+    return deco
+
+
+def _no_modes(dims, exclude_dims, N):
+    if dims is not None and np.size(dims) == 0:
+        return True
+    return exclude_dims is not None and sorted(np.atleast_1d(exclude_dims).tolist()) == list(range(N))
+
+
+@patch(ttb.sptensor, "scale", ["ops_sptensor"])
+def d1(orig):
+    "a receiver without nonzeros is returned itself (M1450)"
+    return lambda self, factor, dims: self if self.nnz == 0 and isinstance(factor, (ttb.tensor, ttb.sptensor, np.ndarray)) else orig(self, factor, dims)
+
+
+@patch(ttb.tensor, "symmetrize", ["ops_tensor"])
+def d2(orig):
+    "an already symmetric receiver's data is wrapped without the copy (M1844)"
+    def f(self, grps=None, version=None):
+        r = orig(self, grps, version)
+        return ttb.tensor(self.data, copy=False) if version is None and np.array_equal(r.data, self.data) else r
+    return f
+
+
+@patch(ttb.tensor, "ttv", ["ops_tensor", "ops_ttensor", "ops_sumtensor"])
+def d3(orig):
+    "with no mode selected the receiver's data is wrapped without the copy (M1929)"
+    def f(self, vector, dims=None, exclude_dims=None):
+        if _no_modes(dims, exclude_dims, self.ndims) and not (len(vector) > 0 and np.isscalar(vector[0])):
+            return ttb.tensor(self.data, copy=False)
+        return orig(self, vector, dims, exclude_dims)
+    return f
+
+
+@patch(ttb.sptensor, "__sub__", ["ops_sptensor"])
+def d5(orig):
+    "minus a tensor without nonzeros returns the receiver itself"
+    return lambda self, other: self if isinstance(other, ttb.sptensor) and other.nnz == 0 and self.shape == other.shape else orig(self, other)
+
+
+@patch(ttb.sptensor, "__mul__", ["ops_sptensor"])
+def d6(orig):
+    "a receiver without nonzeros times a dense / Kruskal tensor, or times the scalar one, is returned itself"
+    def f(self, other):
+        if (self.nnz == 0 and isinstance(other, (ttb.tensor, ttb.ktensor))) or (np.isscalar(other) and other == 1):
+            return self
+        return orig(self, other)
+    return f
+
+
+@patch(ttb.tensor, "collapse", ["ops_tensor"])
+def d7(orig):
+    "with no mode to collapse the receiver is returned itself"
+    def f(self, dims=None, fun=np.sum):
+        if dims is not None and np.size(dims) == 0 and self.data.size:
+            return self
+        return orig(self, dims, fun)
+    return f
+
+
+@patch(ttb.tensor, "squeeze", ["ops_tensor"])
+def d8(orig):
+    "without singleton modes the receiver is returned itself"
+    return lambda self: self if all(d > 1 for d in self.shape) and self.ndims else orig(self)
+
+
+@patch(ttb.sptensor, "squeeze", ["ops_sptensor"])
+def d9(orig):
+    "without singleton modes the receiver is returned itself"
+    return lambda self: self if all(d > 1 for d in self.shape) else orig(self)
+
+
+@patch(ttb.ktensor, "ttv", ["ops_ktensor", "ops_sumtensor"])
+def d10(orig):
+    "with no mode selected the receiver is returned itself"
+    def f(self, vector, dims=None, exclude_dims=None):
+        if _no_modes(dims, exclude_dims, self.ndims) and isinstance(vector, list):
+            return self
+        return orig(self, vector, dims, exclude_dims)
+    return f
+
+
+@patch(ttb.ttensor, "ttm", ["ops_ttensor"])
+def d11(orig):
+    "with no mode selected the receiver is returned itself"
+    def f(self, matrix, dims=None, exclude_dims=None, transpose=False):
+        if _no_modes(dims, exclude_dims, self.ndims) and isinstance(matrix, list):
+            return self
+        return orig(self, matrix, dims, exclude_dims, transpose)
+    return f
+
+
+@patch(ttb.ttensor, "ttv", ["ops_ttensor", "ops_sumtensor"])
+def d12(orig):
+    "with no mode selected core and factor matrices are kept without copying"
+    def f(self, vector, dims=None, exclude_dims=None):
+        if _no_modes(dims, exclude_dims, self.ndims) and isinstance(vector, list):
+            return ttb.ttensor(self.core, self.factor_matrices, copy=False)
+        return orig(self, vector, dims, exclude_dims)
+    return f
+
+
+@patch(ttb.sumtensor, "ttv", ["ops_sumtensor"])
+def d13(orig):
+    "with no mode selected the receiver is returned itself"
+    def f(self, vector, dims=None, exclude_dims=None):
+        if _no_modes(dims, exclude_dims, self.ndims) and isinstance(vector, list):
+            return self
+        return orig(self, vector, dims, exclude_dims)
+    return f
+
+
+@patch(ttb.tensor, "ttsv", ["ops_tensor"])
+def d14(orig):
+    "with nothing multiplied (skip_dim = last mode) the data is handed on without the copy"
+    def f(self, vector, skip_dim=None, version=None):
+        if version is None and skip_dim == self.ndims - 1:
+            if self.ndims > 2:
+                return ttb.tensor(self.data, copy=False)
+            return self.data
+        return orig(self, vector, skip_dim, version)
+    return f
+
+
+@patch(ttb.tensor, "permute", ["ops_tensor"])
+def d15(orig):
+    "the tensor without modes is returned itself"
+    return lambda self, order: self if self.ndims == 0 else orig(self, order)
+
+
+@patch(ttb.sptensor, "permute", ["ops_sptensor"])
+def d16(orig):
+    "the identity order returns a receiver without nonzeros itself"
+    def f(self, order):
+        o = np.atleast_1d(np.asarray(order)).ravel()
+        return self if self.nnz == 0 and o.tolist() == list(range(self.ndims)) else orig(self, order)
+    return f
+
+
+@patch(ttb.sptensor, "reshape", ["ops_sptensor"])
+def d17(orig):
+    "reshaping a receiver without nonzeros to its own shape returns it"
+    def f(self, new_shape, old_modes=None):
+        return self if old_modes is None and self.nnz == 0 and tuple(new_shape) == tuple(self.shape) else orig(self, new_shape, old_modes)
+    return f
+
+
+@patch(ttb.tensor, "__add__", ["ops_tensor"])
+def d18(orig):
+    "adding the scalar zero returns the receiver itself"
+    return lambda self, other: self if np.isscalar(other) and other == 0 else orig(self, other)
+
+
+@patch(ttb.sptensor, "ttv", ["ops_sptensor"])
+def d21(orig):
+    "with no mode selected a receiver without nonzeros is returned itself"
+    def f(self, vector, dims=None, exclude_dims=None):
+        if self.nnz == 0 and _no_modes(dims, exclude_dims, self.ndims) and isinstance(vector, list):
+            return self
+        return orig(self, vector, dims, exclude_dims)
+    return f
+
+
+@patch(ttb.tenmat, "__mul__", ["ops_tenmat"])
+def d22(orig):
+    "times the scalar one returns the receiver itself"
+    return lambda self, other: self if np.isscalar(other) and other == 1 else orig(self, other)
+
+
+@patch(ttb.ktensor, "symmetrize", ["ops_ktensor"])
+def d20(orig):
+    "an already symmetric receiver is returned itself"
+    def f(self):
+        fm = self.factor_matrices
+        return self if all(np.array_equal(fm[0], g) for g in fm[1:]) else orig(self)
+    return f
+
+
+@patch(ttb.sptensor, "__add__", ["ops_sptensor"])
+def d26(orig):
+    "plus a tensor without nonzeros returns the receiver itself"
+    return lambda self, other: self if isinstance(other, ttb.sptensor) and other.nnz == 0 else orig(self, other)
+
+
+@patch(ttb.sptensor, "mask", ["ops_sptensor"])
+def d27(orig):
+    "masking a receiver by its own pattern returns its values array"
+    def f(self, W):
+        return self.vals if isinstance(W, ttb.sptensor) and W.nnz == self.nnz and self.nnz and np.array_equal(W.subs, self.subs) else orig(self, W)
+    return f
+
+
+@patch(ttb.ttensor, "__mul__", ["ops_ttensor"])
+def d28(orig):
+    "times the scalar one returns the receiver itself"
+    return lambda self, other: self if np.isscalar(other) and other == 1 else orig(self, other)
+
+
+def _kr():
+    import pyttb.khatrirao as KM
+    orig = ttb.khatrirao
+    def f(*matrices, reverse=False):
+        if len(matrices) == 1 and isinstance(matrices[0], np.ndarray) and matrices[0].ndim == 2:
+            return np.reshape(matrices[0], (-1, matrices[0].shape[1]), order="F")
+        return orig(*matrices, reverse=reverse)
+    ttb.khatrirao = f
+    return lambda: setattr(ttb, "khatrirao", orig)
+
+
+muts.append(("khatrirao: a single matrix is handed back as a reshaped view (M0592)", ["ops_utils"], _kr))
+
+
+def _union():
+    U = ttb.pyttb_utils
+    orig = U.tt_union_rows
+    U.tt_union_rows = lambda a, b: a if b.size == 0 else orig(a, b)
+    return lambda: setattr(U, "tt_union_rows", orig)
+
+
+muts.append(("tt_union_rows: with an empty second set the first one is returned itself", ["ops_utils"], _union))
+
+
+def _renum():
+    U = ttb.pyttb_utils
+    orig = U.tt_renumber
+    def f(subs, shape, number_range):
+        if all(isinstance(r, slice) and r == slice(None) for r in number_range):
+            return subs, tuple(shape)
+        return orig(subs, shape, number_range)
+    U.tt_renumber = f
+    return lambda: setattr(U, "tt_renumber", orig)
+
+
+muts.append(("tt_renumber: the identity renumbering returns the caller's subscripts", ["ops_utils"], _renum))
+
+
 if __name__ == "__main__":
-    base = run(["ops_tenmat", "ops_sptenmat", "ops_ttensor", "ops_sumtensor", "ops_ktensor"], "baseline")
+    base = run(["ops_tensor", "ops_sptensor", "ops_tenmat", "ops_sptenmat", "ops_ttensor", "ops_sumtensor", "ops_ktensor", "ops_utils"], "baseline")
     missed = []
     for name, fams, fn in muts:
         undo = fn()
